@@ -74,7 +74,8 @@ mod sweep {
     pub fn run(tier: &str) -> i32 {
         let quick = tier == "quick";
         let ws: Vec<usize> = if quick { vec![1, 2, 3, 4, 5, 7, 8, 15, 16, 17, 31, 32, 33, 63, 64] } else { (1..=64).collect() };
-        let mut days: Vec<i64> = (0..=130).collect();
+        // negative: end before start by more than one day (still an empty range)
+        let mut days: Vec<i64> = (-3..=130).collect();
         days.extend([365, 366, 1000, 6000]);
         let thresholds: Vec<usize> = vec![0, 1, 2, 7, 90, 365, 400];
         let params = Params::new(Method::Isna);
@@ -112,7 +113,7 @@ mod sweep {
             }
         }
         *current.lock().unwrap() = None;
-        println!("{}", json!({"sweep": {"configurations": n.load(Ordering::Relaxed), "took_parallel_branch": par.load(Ordering::Relaxed), "workers": ws, "days": "0..=130, 365, 366, 1000, 6000", "thresholds": thresholds, "violations": bad}}));
+        println!("{}", json!({"sweep": {"configurations": n.load(Ordering::Relaxed), "took_parallel_branch": par.load(Ordering::Relaxed), "workers": ws, "days": "-3..=130 (<= 0: empty / reversed ranges), 365, 366, 1000, 6000", "thresholds": thresholds, "violations": bad}}));
         if bad.is_empty() {
             0
         } else {
